@@ -81,6 +81,15 @@ JudgeEnc(e, usedIV, usedCt) ==
     ELSE IF e.ct \in usedCt THEN "Encrypt:ciphertext-repeated"
     ELSE "ok"
 
+(* n encryptions of one (k, m) in a row on one object: every one a ciphertext of the right length, all of them new *)
+JudgeEncMany(e, usedCt) ==
+    IF e.out # "ok" THEN "Encrypt:refused-valid-input"
+    ELSE IF Len(e.cts) # e.n THEN "Encrypt:result-not-bytes"
+    ELSE IF \E i \in 1..Len(e.cts) : ~IsBytes(e.cts[i]) \/ Len(e.cts[i]) # CtLen(Len(e.m)) THEN "Encrypt:length-formula"
+    ELSE IF Cardinality({e.cts[i] : i \in 1..Len(e.cts)}) # Len(e.cts) THEN "Encrypt:ciphertext-repeated"
+    ELSE IF \E i \in 1..Len(e.cts) : e.cts[i] \in usedCt THEN "Encrypt:ciphertext-repeated"
+    ELSE "ok"
+
 (* Encrypt, Layer B (drift only) - the construction the code of the unchanged tree uses: one AES-CBC core call under *)
 (* k on Pad(m) with an IV that is a fresh 16-byte draw from os.urandom, ct = iv . body.  An implementation that gets *)
 (* its randomness or its cipher elsewhere may satisfy the property without satisfying this.                          *)
